@@ -24,7 +24,7 @@ type TreeAPI interface {
 	// over that same value each time it is called.
 	Seq(op string, a, b []byte, n uint) SeqFn
 	Size() int
-	Dump() *art.VerifNode
+	Dump() *VNode
 	ValID(v any) (uint64, bool)
 	Buf() *bufTracker
 	Buf2(lay int)
@@ -455,8 +455,8 @@ func (d *drv[K, V]) Seq(op string, a, b []byte, n uint) SeqFn {
 
 func (d *drv[K, V]) Size() int { return d.t.Size() }
 
-func (d *drv[K, V]) Dump() *art.VerifNode {
-	return any(d.t).(interface{ VerifDump() *art.VerifNode }).VerifDump()
+func (d *drv[K, V]) Dump() *VNode {
+	return dumpTree(any(d.t))
 }
 
 func (d *drv[K, V]) ValID(v any) (uint64, bool) {
